@@ -83,6 +83,12 @@ package services
 //@   property C17
 //@   ensures old(b).state == New ==> b.state == Terminated
 //@   ensures old(b).state != New ==> b.state == old(b).state
+//@   # the stop request reaches a started service: its context is cancelled exactly when the service is Starting or
+//@   # Running (a New service is terminated directly; one that is Stopping or terminal needs nothing)
+//@   ghost var cancels int = 0
+//@   at after@b.serviceCancel: cancels := cancels + 1
+//@   at exit: assert cancel_when_started: old(b).state == Starting || old(b).state == Running ==> cancels == 1
+//@   at exit: assert no_cancel_otherwise: old(b).state == New || old(b).state == Stopping || old(b).state == Terminated || old(b).state == Failed ==> cancels == 0
 //@
 //@ # a waiter returns nil only if, after its channel was closed (or it was already closed), the state read equals the expected one
 //@ func BasicService.awaitState
@@ -125,3 +131,20 @@ package services
 //@   ensures  registered: old(b).state != Terminated && old(b).state != Failed ==> len(b.listeners) == len(old(b).listeners) + 1
 //@   ensures  terminal: old(b).state == Terminated || old(b).state == Failed ==> len(b.listeners) == len(old(b).listeners)
 //@   ensures  b.state == old(b).state
+//@
+//@ # ---- idle and timer services: the running function of a timer service returns the first error of an iteration
+//@ # (whatever the state of the service context at that moment: "the failure cause is the first error"), runs no
+//@ # iteration after one failed, and returns nil only if no iteration failed; the idle service never fails on its own
+//@ func NewTimerService$1
+//@   property C17
+//@   ghost var iterFailed bool = false
+//@   ghost var iterErr error = havoc
+//@   at before@iter: assert no_iteration_after_error: !iterFailed
+//@   at after@iter: iterFailed := $r0 != nil
+//@   at after@iter: iterErr := $r0
+//@   loop 0 invariant !iterFailed
+//@   at exit: assert first_error: iterFailed ==> result == iterErr
+//@   at exit: assert no_invented_error: !iterFailed ==> result == nil
+//@ func NewIdleService$1
+//@   property C17
+//@   ensures result == nil
